@@ -1838,6 +1838,11 @@ impl KyroDbService for KyroDBServiceImpl {
         let global_doc_id = self.map_doc_id(tenant.as_ref(), req.doc_id)?;
 
         let engine = &self.state.engine;
+        // Serialize with this tenant's quota-checked inserts: an upsert that saw the document as
+        // existing (and so reserved nothing) must not interleave with its deletion, or the tenant's
+        // vector count drifts below its live document count.
+        let quota_lock = self.tenant_quota_lock(tenant.as_ref());
+        let _quota_guard = quota_lock.as_ref().map(|lock| lock.lock());
 
         let metadata = match engine.get_metadata(global_doc_id) {
             Some(m) => m,
@@ -2459,6 +2464,9 @@ impl KyroDbService for KyroDBServiceImpl {
         let req = request.into_inner();
 
         let engine = &self.state.engine;
+        // Same serialization as `delete`: the count is decremented under the tenant's quota lock.
+        let quota_lock = self.tenant_quota_lock(tenant.as_ref());
+        let _quota_guard = quota_lock.as_ref().map(|lock| lock.lock());
 
         let result = match req.delete_criteria {
             Some(batch_delete_request::DeleteCriteria::Ids(id_list)) => {
